@@ -55,6 +55,9 @@ func parseUDPAddr(s string) (*UDPAddr, error) {
 	if err != nil {
 		return nil, err
 	}
+	if a.Host.Type() != addr.HostTypeIP {
+		return nil, serrors.New("invalid address: host is not an IP address", "addr", s)
+	}
 	udp := &net.UDPAddr{
 		IP:   a.Host.IP().AsSlice(),
 		Zone: a.Host.IP().Zone(),
